@@ -451,12 +451,10 @@ func (s *Supervisor) ForkingWorkerState(e *am.Event) {
 
 	// test forking, if provided
 	if s.TestFork != nil {
-		// fake entry, tracked before forking (like a real fork), so a fork in
-		// progress counts towards Max
-		s.Mach.Add1(ssS.SetWorker, Pass(&A{
-			WorkerAddr: bootAddr,
-			WorkerInfo: newWorkerInfo(s, nil),
-		}))
+		// fake entry, tracked before forking (like a real fork) and right away
+		// (not via the queue), so a fork in progress counts towards Max for the
+		// next ForkingWorker in the queue
+		s.workers[bootAddr] = newWorkerInfo(s, nil)
 
 		// unblock
 		go func() {
@@ -486,10 +484,7 @@ func (s *Supervisor) ForkingWorkerState(e *am.Event) {
 	s.log("forking worker %s %s", s.WorkerBin[0], cmdArgs)
 	cmd := exec.CommandContext(ctx, s.WorkerBin[0], cmdArgs...)
 	cmd.Env = os.Environ()
-	s.Mach.Add1(ssS.SetWorker, Pass(&A{
-		WorkerAddr: bootAddr,
-		WorkerInfo: newWorkerInfo(s, cmd.Process),
-	}))
+	s.workers[bootAddr] = newWorkerInfo(s, cmd.Process)
 
 	// read errors
 	stderr, err := cmd.StderrPipe()
